@@ -36,6 +36,9 @@ type RevalidationContext struct {
 	Freshness  *Freshness
 	Refs       ResponseRefs
 	RefIndex   int
+	// Superseded: the stored response was invalidated or replaced while it
+	// was being validated; it may be returned but not written back.
+	Superseded bool
 }
 
 func (r RevalidationContext) ToMisc(ccResp CCResponseDirectives) MiscFunc {
@@ -84,7 +87,7 @@ func (r *validationResponseHandler) HandleValidationResponse(
 		// Freshen the stored response (RFC 9111 §4.3.4): write the merged entry
 		// back with the 304's request/response times so that its age restarts.
 		// (not when the request or the freshened response forbids storing).
-		if r.rs != nil && r.ce != nil &&
+		if r.rs != nil && r.ce != nil && !ctx.Superseded &&
 			r.ce.CanStoreResponse(
 				ctx.Stored.Data,
 				ctx.CCReq,
